@@ -16,67 +16,67 @@ Proof. vm_compute. tauto. Qed.
 
 (* server/core/region_tree.go: (regionTree).length, body *)
 Lemma src_tree_length_ok : src_tree_length =
-  "{ if t == nil { return 0 } return t.tree.Len() }".
+  "{ if v0 == nil { return 0 } return v0.tree.Len() }".
 Proof. reflexivity. Qed.
 
 (* server/core/region_tree.go: (regionTree).getOverlaps, body *)
 Lemma src_tree_getOverlaps_ok : src_tree_getOverlaps =
-  "{ item := &regionItem{region: region} result := t.find(region) if result == nil { result = item } var overlaps []*RegionInfo t.tree.AscendGreaterOrEqual(result, func(i btree.Item) bool { over := i.(*regionItem) if len(region.GetEndKey()) > 0 && bytes.Compare(region.GetEndKey(), over.region.GetStartKey()) <= 0 { return false } overlaps = append(overlaps, over.region) return true }) return overlaps }".
+  "{ v2 := &regionItem{region: v1} v3 := v0.find(v1) if v3 == nil { v3 = v2 } var v4 []*RegionInfo v0.tree.AscendGreaterOrEqual(v3, func(v5 btree.Item) bool { v6 := v5.(*regionItem) if len(v1.GetEndKey()) > 0 && bytes.Compare(v1.GetEndKey(), v6.region.GetStartKey()) <= 0 { return false } v4 = append(v4, v6.region) return true }) return v4 }".
 Proof. reflexivity. Qed.
 
 (* server/core/region_tree.go: (regionTree).update, body *)
 Lemma src_tree_update_ok : src_tree_update =
-  "{ region := item.region t.totalSize += region.approximateSize overlaps := t.getOverlaps(region) for _, old := range overlaps { log.Debug(""overlapping region"", zap.Uint64(""region-id"", old.GetID()), logutil.ZapRedactStringer(""delete-region"", RegionToHexMeta(old.GetMeta())), logutil.ZapRedactStringer(""update-region"", RegionToHexMeta(region.GetMeta()))) t.tree.Delete(&regionItem{old}) t.totalSize -= old.approximateSize } t.tree.ReplaceOrInsert(item) return overlaps }".
+  "{ v2 := v1.region v0.totalSize += v2.approximateSize v3 := v0.getOverlaps(v2) for _, v4 := range v3 { v0.tree.Delete(&regionItem{v4}) v0.totalSize -= v4.approximateSize } v0.tree.ReplaceOrInsert(v1) return v3 }".
 Proof. reflexivity. Qed.
 
 (* server/core/region_tree.go: (regionTree).updateStat, body *)
 Lemma src_tree_updateStat_ok : src_tree_updateStat =
-  "{ t.totalSize += region.approximateSize t.totalSize -= origin.approximateSize }".
+  "{ v0.totalSize += v2.approximateSize v0.totalSize -= v1.approximateSize }".
 Proof. reflexivity. Qed.
 
 (* server/core/region_tree.go: (regionTree).remove, body *)
 Lemma src_tree_remove_ok : src_tree_remove =
-  "{ if t.length() == 0 { return nil } result := t.find(region) if result == nil || result.region.GetID() != region.GetID() { return nil } t.totalSize -= region.approximateSize return t.tree.Delete(result) }".
+  "{ if v0.length() == 0 { return nil } v2 := v0.find(v1) if v2 == nil || v2.region.GetID() != v1.GetID() { return nil } v0.totalSize -= v1.approximateSize return v0.tree.Delete(v2) }".
 Proof. reflexivity. Qed.
 
 (* server/core/region_tree.go: (regionTree).search, body *)
 Lemma src_tree_search_ok : src_tree_search =
-  "{ region := &RegionInfo{meta: &metapb.Region{StartKey: regionKey}} result := t.find(region) if result == nil { return nil } return result.region }".
+  "{ v2 := &RegionInfo{meta: &metapb.Region{StartKey: v1}} v3 := v0.find(v2) if v3 == nil { return nil } return v3.region }".
 Proof. reflexivity. Qed.
 
 (* server/core/region_tree.go: (regionTree).searchPrev, body *)
 Lemma src_tree_searchPrev_ok : src_tree_searchPrev =
-  "{ curRegion := &RegionInfo{meta: &metapb.Region{StartKey: regionKey}} curRegionItem := t.find(curRegion) if curRegionItem == nil { return nil } prevRegionItem, _ := t.getAdjacentRegions(curRegionItem.region) if prevRegionItem == nil { return nil } if !bytes.Equal(prevRegionItem.region.GetEndKey(), curRegionItem.region.GetStartKey()) { return nil } return prevRegionItem.region }".
+  "{ v2 := &RegionInfo{meta: &metapb.Region{StartKey: v1}} v3 := v0.find(v2) if v3 == nil { return nil } v4, _ := v0.getAdjacentRegions(v3.region) if v4 == nil { return nil } if !bytes.Equal(v4.region.GetEndKey(), v3.region.GetStartKey()) { return nil } return v4.region }".
 Proof. reflexivity. Qed.
 
 (* server/core/region_tree.go: (regionTree).find, body *)
 Lemma src_tree_find_ok : src_tree_find =
-  "{ item := &regionItem{region: region} var result *regionItem t.tree.DescendLessOrEqual(item, func(i btree.Item) bool { result = i.(*regionItem) return false }) if result == nil || !result.Contains(region.GetStartKey()) { return nil } return result }".
+  "{ v2 := &regionItem{region: v1} var v3 *regionItem v0.tree.DescendLessOrEqual(v2, func(v4 btree.Item) bool { v3 = v4.(*regionItem) return false }) if v3 == nil || !v3.Contains(v1.GetStartKey()) { return nil } return v3 }".
 Proof. reflexivity. Qed.
 
 (* server/core/region_tree.go: (regionTree).scanRange, body *)
 Lemma src_tree_scanRange_ok : src_tree_scanRange =
-  "{ region := &RegionInfo{meta: &metapb.Region{StartKey: startKey}} startItem := t.find(region) if startItem == nil { startItem = &regionItem{region: &RegionInfo{meta: &metapb.Region{StartKey: startKey}}} } t.tree.AscendGreaterOrEqual(startItem, func(item btree.Item) bool { return f(item.(*regionItem).region) }) }".
+  "{ v3 := &RegionInfo{meta: &metapb.Region{StartKey: v1}} v4 := v0.find(v3) if v4 == nil { v4 = &regionItem{region: &RegionInfo{meta: &metapb.Region{StartKey: v1}}} } v0.tree.AscendGreaterOrEqual(v4, func(v5 btree.Item) bool { return v2(v5.(*regionItem).region) }) }".
 Proof. reflexivity. Qed.
 
 (* server/core/region_tree.go: (regionTree).scanRanges, body *)
 Lemma src_tree_scanRanges_ok : src_tree_scanRanges =
-  "{ if t.length() == 0 { return nil } var res []*RegionInfo t.scanRange([]byte(""""), func(region *RegionInfo) bool { res = append(res, region) return true }) return res }".
+  "{ if v0.length() == 0 { return nil } var v1 []*RegionInfo v0.scanRange([]byte(""""), func(v2 *RegionInfo) bool { v1 = append(v1, v2) return true }) return v1 }".
 Proof. reflexivity. Qed.
 
 (* server/core/region_tree.go: (regionTree).getAdjacentRegions, body *)
 Lemma src_tree_getAdjacentRegions_ok : src_tree_getAdjacentRegions =
-  "{ item := &regionItem{region: &RegionInfo{meta: &metapb.Region{StartKey: region.GetStartKey()}}} var prev, next *regionItem t.tree.AscendGreaterOrEqual(item, func(i btree.Item) bool { if bytes.Equal(item.region.GetStartKey(), i.(*regionItem).region.GetStartKey()) { return true } next = i.(*regionItem) return false }) t.tree.DescendLessOrEqual(item, func(i btree.Item) bool { if bytes.Equal(item.region.GetStartKey(), i.(*regionItem).region.GetStartKey()) { return true } prev = i.(*regionItem) return false }) return prev, next }".
+  "{ v2 := &regionItem{region: &RegionInfo{meta: &metapb.Region{StartKey: v1.GetStartKey()}}} var v3, v4 *regionItem v0.tree.AscendGreaterOrEqual(v2, func(v5 btree.Item) bool { if bytes.Equal(v2.region.GetStartKey(), v5.(*regionItem).region.GetStartKey()) { return true } v4 = v5.(*regionItem) return false }) v0.tree.DescendLessOrEqual(v2, func(v6 btree.Item) bool { if bytes.Equal(v2.region.GetStartKey(), v6.(*regionItem).region.GetStartKey()) { return true } v3 = v6.(*regionItem) return false }) return v3, v4 }".
 Proof. reflexivity. Qed.
 
 (* server/core/region_tree.go: (regionTree).RandomRegion, body *)
 Lemma src_tree_RandomRegion_ok : src_tree_RandomRegion =
-  "{ if t.length() == 0 { return nil } if len(ranges) == 0 { ranges = []KeyRange{NewKeyRange("""", """")} } for _, i := range rand.Perm(len(ranges)) { var endIndex int startKey, endKey := ranges[i].StartKey, ranges[i].EndKey startRegion, startIndex := t.tree.GetWithIndex(&regionItem{region: &RegionInfo{meta: &metapb.Region{StartKey: startKey}}}) if len(endKey) != 0 { _, endIndex = t.tree.GetWithIndex(&regionItem{region: &RegionInfo{meta: &metapb.Region{StartKey: endKey}}}) } else { endIndex = t.tree.Len() } if startIndex != 0 && startRegion == nil && t.tree.GetAt(startIndex-1).(*regionItem).Contains(startKey) { startIndex-- } if endIndex <= startIndex { if len(endKey) > 0 && bytes.Compare(startKey, endKey) > 0 { log.Error(""wrong range keys"", logutil.ZapRedactString(""start-key"", string(HexRegionKey(startKey))), logutil.ZapRedactString(""end-key"", string(HexRegionKey(endKey))), errs.ZapError(errs.ErrWrongRangeKeys)) } continue } index := rand.Intn(endIndex-startIndex) + startIndex region := t.tree.GetAt(index).(*regionItem).region if isInvolved(region, startKey, endKey) { return region } } return nil }".
+  "{ if v0.length() == 0 { return nil } if len(v1) == 0 { v1 = []KeyRange{NewKeyRange("""", """")} } for _, v2 := range rand.Perm(len(v1)) { var v3 int v4, v5 := v1[v2].StartKey, v1[v2].EndKey v6, v7 := v0.tree.GetWithIndex(&regionItem{region: &RegionInfo{meta: &metapb.Region{StartKey: v4}}}) if len(v5) != 0 { _, v3 = v0.tree.GetWithIndex(&regionItem{region: &RegionInfo{meta: &metapb.Region{StartKey: v5}}}) } else { v3 = v0.tree.Len() } if v7 != 0 && v6 == nil && v0.tree.GetAt(v7-1).(*regionItem).Contains(v4) { v7-- } if v3 <= v7 { if len(v5) > 0 && bytes.Compare(v4, v5) > 0 { } continue } v8 := rand.Intn(v3-v7) + v7 v9 := v0.tree.GetAt(v8).(*regionItem).region if isInvolved(v9, v4, v5) { return v9 } } return nil }".
 Proof. reflexivity. Qed.
 
 (* server/core/region_tree.go: (regionTree).TotalSize, body *)
 Lemma src_tree_TotalSize_ok : src_tree_TotalSize =
-  "{ if t.length() == 0 { return 0 } return t.totalSize }".
+  "{ if v0.length() == 0 { return 0 } return v0.totalSize }".
 Proof. reflexivity. Qed.
 
 (* server/core/region_tree.go: ().newRegionTree, body *)
@@ -86,421 +86,421 @@ Proof. reflexivity. Qed.
 
 (* server/core/region.go: (RegionsInfo).GetRegion, body *)
 Lemma src_ri_GetRegion_ok : src_ri_GetRegion =
-  "{ if item := r.regions.Get(regionID); item != nil { return item.region } return nil }".
+  "{ if v2 := v0.regions.Get(v1); v2 != nil { return v2.region } return nil }".
 Proof. reflexivity. Qed.
 
 (* server/core/region.go: (RegionsInfo).SetRegion, body *)
 Lemma src_ri_SetRegion_ok : src_ri_SetRegion =
-  "{ var item *regionItem // Pointer to the *RegionInfo of this ID. var origin *RegionInfo // This is the original region information of this ID. var rangeChanged bool // This Region is new, or its range has changed. var peersChanged bool // This Region is new, or its peers have changed, including leader-change/pending/down. if item = r.regions.Get(region.GetID()); item != nil { origin = item.region rangeChanged = !bytes.Equal(origin.GetStartKey(), region.GetStartKey()) || !bytes.Equal(origin.GetEndKey(), region.GetEndKey()) if rangeChanged { r.tree.remove(origin) peersChanged = true } else { peersChanged = r.shouldRemoveFromSubTree(region, origin) } if peersChanged { r.removeRegionFromSubTree(origin) } item.region = region } else { rangeChanged = true peersChanged = true item = r.regions.AddNew(region) } if !rangeChanged { r.tree.updateStat(origin, region) } else { overlaps = r.tree.update(item) for _, old := range overlaps { r.RemoveRegion(r.GetRegion(old.GetID())) } } if !peersChanged { r.updateSubTreeStat(origin, region) } else { for _, peer := range region.GetVoters() { storeID := peer.GetStoreId() if peer.GetId() == region.leader.GetId() { store, ok := r.leaders[storeID] if !ok { store = newRegionTree() r.leaders[storeID] = store } store.update(item) } else { store, ok := r.followers[storeID] if !ok { store = newRegionTree() r.followers[storeID] = store } store.update(item) } } for _, peer := range region.GetLearners() { storeID := peer.GetStoreId() store, ok := r.learners[storeID] if !ok { store = newRegionTree() r.learners[storeID] = store } store.update(item) } for _, peer := range region.GetPendingPeers() { storeID := peer.GetStoreId() store, ok := r.pendingPeers[storeID] if !ok { store = newRegionTree() r.pendingPeers[storeID] = store } store.update(item) } } return }".
+  "{ var v3 *regionItem // Pointer to the *RegionInfo of this ID. var v4 *RegionInfo // This is the original region information of this ID. var v5 bool // This Region is new, or its range has changed. var v6 bool // This Region is new, or its peers have changed, including leader-change/pending/down. if v3 = v0.regions.Get(v1.GetID()); v3 != nil { v4 = v3.region v5 = !bytes.Equal(v4.GetStartKey(), v1.GetStartKey()) || !bytes.Equal(v4.GetEndKey(), v1.GetEndKey()) if v5 { v0.tree.remove(v4) v6 = true } else { v6 = v0.shouldRemoveFromSubTree(v1, v4) } if v6 { v0.removeRegionFromSubTree(v4) } v3.region = v1 } else { v5 = true v6 = true v3 = v0.regions.AddNew(v1) } if !v5 { v0.tree.updateStat(v4, v1) } else { v2 = v0.tree.update(v3) for _, v7 := range v2 { v0.RemoveRegion(v0.GetRegion(v7.GetID())) } } if !v6 { v0.updateSubTreeStat(v4, v1) } else { for _, v8 := range v1.GetVoters() { v9 := v8.GetStoreId() if v8.GetId() == v1.leader.GetId() { v10, v11 := v0.leaders[v9] if !v11 { v10 = newRegionTree() v0.leaders[v9] = v10 } v10.update(v3) } else { v12, v13 := v0.followers[v9] if !v13 { v12 = newRegionTree() v0.followers[v9] = v12 } v12.update(v3) } } for _, v14 := range v1.GetLearners() { v15 := v14.GetStoreId() v16, v17 := v0.learners[v15] if !v17 { v16 = newRegionTree() v0.learners[v15] = v16 } v16.update(v3) } for _, v18 := range v1.GetPendingPeers() { v19 := v18.GetStoreId() v20, v21 := v0.pendingPeers[v19] if !v21 { v20 = newRegionTree() v0.pendingPeers[v19] = v20 } v20.update(v3) } } return }".
 Proof. reflexivity. Qed.
 
 (* server/core/region.go: (RegionsInfo).updateSubTreeStat, body *)
 Lemma src_ri_updateSubTreeStat_ok : src_ri_updateSubTreeStat =
-  "{ for _, peer := range region.GetVoters() { storeID := peer.GetStoreId() if peer.GetId() == region.leader.GetId() { if tree, ok := r.leaders[storeID]; ok { tree.updateStat(origin, region) } } else { if tree, ok := r.followers[storeID]; ok { tree.updateStat(origin, region) } } } for _, peer := range region.GetLearners() { if tree, ok := r.learners[peer.GetStoreId()]; ok { tree.updateStat(origin, region) } } for _, peer := range region.GetPendingPeers() { if tree, ok := r.pendingPeers[peer.GetStoreId()]; ok { tree.updateStat(origin, region) } } }".
+  "{ for _, v3 := range v2.GetVoters() { v4 := v3.GetStoreId() if v3.GetId() == v2.leader.GetId() { if v5, v6 := v0.leaders[v4]; v6 { v5.updateStat(v1, v2) } } else { if v7, v8 := v0.followers[v4]; v8 { v7.updateStat(v1, v2) } } } for _, v9 := range v2.GetLearners() { if v10, v11 := v0.learners[v9.GetStoreId()]; v11 { v10.updateStat(v1, v2) } } for _, v12 := range v2.GetPendingPeers() { if v13, v14 := v0.pendingPeers[v12.GetStoreId()]; v14 { v13.updateStat(v1, v2) } } }".
 Proof. reflexivity. Qed.
 
 (* server/core/region.go: (RegionsInfo).GetOverlaps, body *)
 Lemma src_ri_GetOverlaps_ok : src_ri_GetOverlaps =
-  "{ return r.tree.getOverlaps(region) }".
+  "{ return v0.tree.getOverlaps(v1) }".
 Proof. reflexivity. Qed.
 
 (* server/core/region.go: (RegionsInfo).RemoveRegion, body *)
 Lemma src_ri_RemoveRegion_ok : src_ri_RemoveRegion =
-  "{ r.tree.remove(region) r.regions.Delete(region.GetID()) r.removeRegionFromSubTree(region) }".
+  "{ v0.tree.remove(v1) v0.regions.Delete(v1.GetID()) v0.removeRegionFromSubTree(v1) }".
 Proof. reflexivity. Qed.
 
 (* server/core/region.go: (RegionsInfo).removeRegionFromSubTree, body *)
 Lemma src_ri_removeRegionFromSubTree_ok : src_ri_removeRegionFromSubTree =
-  "{ for _, peer := range region.meta.GetPeers() { storeID := peer.GetStoreId() r.leaders[storeID].remove(region) r.followers[storeID].remove(region) r.learners[storeID].remove(region) r.pendingPeers[storeID].remove(region) } }".
+  "{ for _, v2 := range v1.meta.GetPeers() { v3 := v2.GetStoreId() v0.leaders[v3].remove(v1) v0.followers[v3].remove(v1) v0.learners[v3].remove(v1) v0.pendingPeers[v3].remove(v1) } }".
 Proof. reflexivity. Qed.
 
 (* server/core/region.go: (RegionsInfo).SearchRegion, body *)
 Lemma src_ri_SearchRegion_ok : src_ri_SearchRegion =
-  "{ region := r.tree.search(regionKey) if region == nil { return nil } return r.GetRegion(region.GetID()) }".
+  "{ v2 := v0.tree.search(v1) if v2 == nil { return nil } return v0.GetRegion(v2.GetID()) }".
 Proof. reflexivity. Qed.
 
 (* server/core/region.go: (RegionsInfo).SearchPrevRegion, body *)
 Lemma src_ri_SearchPrevRegion_ok : src_ri_SearchPrevRegion =
-  "{ region := r.tree.searchPrev(regionKey) if region == nil { return nil } return r.GetRegion(region.GetID()) }".
+  "{ v2 := v0.tree.searchPrev(v1) if v2 == nil { return nil } return v0.GetRegion(v2.GetID()) }".
 Proof. reflexivity. Qed.
 
 (* server/core/region.go: (RegionsInfo).ScanRange, body *)
 Lemma src_ri_ScanRange_ok : src_ri_ScanRange =
-  "{ var res []*RegionInfo r.tree.scanRange(startKey, func(region *RegionInfo) bool { if len(endKey) > 0 && bytes.Compare(region.GetStartKey(), endKey) >= 0 { return false } if limit > 0 && len(res) >= limit { return false } res = append(res, r.GetRegion(region.GetID())) return true }) return res }".
+  "{ var v4 []*RegionInfo v0.tree.scanRange(v1, func(v5 *RegionInfo) bool { if len(v2) > 0 && bytes.Compare(v5.GetStartKey(), v2) >= 0 { return false } if v3 > 0 && len(v4) >= v3 { return false } v4 = append(v4, v0.GetRegion(v5.GetID())) return true }) return v4 }".
 Proof. reflexivity. Qed.
 
 (* server/core/region.go: (RegionsInfo).GetAdjacentRegions, body *)
 Lemma src_ri_GetAdjacentRegions_ok : src_ri_GetAdjacentRegions =
-  "{ p, n := r.tree.getAdjacentRegions(region) var prev, next *RegionInfo if p != nil && bytes.Equal(p.region.GetEndKey(), region.GetStartKey()) { prev = r.GetRegion(p.region.GetID()) } if n != nil && bytes.Equal(region.GetEndKey(), n.region.GetStartKey()) { next = r.GetRegion(n.region.GetID()) } return prev, next }".
+  "{ v2, v3 := v0.tree.getAdjacentRegions(v1) var v4, v5 *RegionInfo if v2 != nil && bytes.Equal(v2.region.GetEndKey(), v1.GetStartKey()) { v4 = v0.GetRegion(v2.region.GetID()) } if v3 != nil && bytes.Equal(v1.GetEndKey(), v3.region.GetStartKey()) { v5 = v0.GetRegion(v3.region.GetID()) } return v4, v5 }".
 Proof. reflexivity. Qed.
 
 (* server/core/region.go: (RegionsInfo).GetAverageRegionSize, body *)
 Lemma src_ri_GetAverageRegionSize_ok : src_ri_GetAverageRegionSize =
-  "{ if r.tree.length() == 0 { return 0 } return r.tree.TotalSize() / int64(r.tree.length()) }".
+  "{ if v0.tree.length() == 0 { return 0 } return v0.tree.TotalSize() / int64(v0.tree.length()) }".
 Proof. reflexivity. Qed.
 
 (* server/core/region.go: (RegionsInfo).GetStoreRegions, body *)
 Lemma src_ri_GetStoreRegions_ok : src_ri_GetStoreRegions =
-  "{ regions := make([]*RegionInfo, 0, r.GetStoreRegionCount(storeID)) if leaders, ok := r.leaders[storeID]; ok { regions = append(regions, leaders.scanRanges()...) } if followers, ok := r.followers[storeID]; ok { regions = append(regions, followers.scanRanges()...) } if learners, ok := r.learners[storeID]; ok { regions = append(regions, learners.scanRanges()...) } return regions }".
+  "{ v2 := make([]*RegionInfo, 0, v0.GetStoreRegionCount(v1)) if v3, v4 := v0.leaders[v1]; v4 { v2 = append(v2, v3.scanRanges()...) } if v5, v6 := v0.followers[v1]; v6 { v2 = append(v2, v5.scanRanges()...) } if v7, v8 := v0.learners[v1]; v8 { v2 = append(v2, v7.scanRanges()...) } return v2 }".
 Proof. reflexivity. Qed.
 
 (* server/core/region.go: (RegionsInfo).GetStoreLeaderCount, body *)
 Lemma src_ri_GetStoreLeaderCount_ok : src_ri_GetStoreLeaderCount =
-  "{ return r.leaders[storeID].length() }".
+  "{ return v0.leaders[v1].length() }".
 Proof. reflexivity. Qed.
 
 (* server/core/region.go: (RegionsInfo).GetStoreFollowerCount, body *)
 Lemma src_ri_GetStoreFollowerCount_ok : src_ri_GetStoreFollowerCount =
-  "{ return r.followers[storeID].length() }".
+  "{ return v0.followers[v1].length() }".
 Proof. reflexivity. Qed.
 
 (* server/core/region.go: (RegionsInfo).GetStoreLearnerCount, body *)
 Lemma src_ri_GetStoreLearnerCount_ok : src_ri_GetStoreLearnerCount =
-  "{ return r.learners[storeID].length() }".
+  "{ return v0.learners[v1].length() }".
 Proof. reflexivity. Qed.
 
 (* server/core/region.go: (RegionsInfo).GetStorePendingPeerCount, body *)
 Lemma src_ri_GetStorePendingPeerCount_ok : src_ri_GetStorePendingPeerCount =
-  "{ return r.pendingPeers[storeID].length() }".
+  "{ return v0.pendingPeers[v1].length() }".
 Proof. reflexivity. Qed.
 
 (* server/core/region.go: (RegionsInfo).GetStoreLeaderRegionSize, body *)
 Lemma src_ri_GetStoreLeaderRegionSize_ok : src_ri_GetStoreLeaderRegionSize =
-  "{ return r.leaders[storeID].TotalSize() }".
+  "{ return v0.leaders[v1].TotalSize() }".
 Proof. reflexivity. Qed.
 
 (* server/core/region.go: (RegionsInfo).GetStoreFollowerRegionSize, body *)
 Lemma src_ri_GetStoreFollowerRegionSize_ok : src_ri_GetStoreFollowerRegionSize =
-  "{ return r.followers[storeID].TotalSize() }".
+  "{ return v0.followers[v1].TotalSize() }".
 Proof. reflexivity. Qed.
 
 (* server/core/region.go: (RegionsInfo).GetStoreLearnerRegionSize, body *)
 Lemma src_ri_GetStoreLearnerRegionSize_ok : src_ri_GetStoreLearnerRegionSize =
-  "{ return r.learners[storeID].TotalSize() }".
+  "{ return v0.learners[v1].TotalSize() }".
 Proof. reflexivity. Qed.
 
 (* server/core/region.go: (RegionsInfo).RandLeaderRegion, body *)
 Lemma src_ri_RandLeaderRegion_ok : src_ri_RandLeaderRegion =
-  "{ return r.leaders[storeID].RandomRegion(ranges) }".
+  "{ return v0.leaders[v1].RandomRegion(v2) }".
 Proof. reflexivity. Qed.
 
 (* server/core/region.go: (RegionsInfo).RandFollowerRegion, body *)
 Lemma src_ri_RandFollowerRegion_ok : src_ri_RandFollowerRegion =
-  "{ return r.followers[storeID].RandomRegion(ranges) }".
+  "{ return v0.followers[v1].RandomRegion(v2) }".
 Proof. reflexivity. Qed.
 
 (* server/core/region.go: (RegionsInfo).RandLearnerRegion, body *)
 Lemma src_ri_RandLearnerRegion_ok : src_ri_RandLearnerRegion =
-  "{ return r.learners[storeID].RandomRegion(ranges) }".
+  "{ return v0.learners[v1].RandomRegion(v2) }".
 Proof. reflexivity. Qed.
 
 (* server/core/region.go: (RegionsInfo).RandPendingRegion, body *)
 Lemma src_ri_RandPendingRegion_ok : src_ri_RandPendingRegion =
-  "{ return r.pendingPeers[storeID].RandomRegion(ranges) }".
+  "{ return v0.pendingPeers[v1].RandomRegion(v2) }".
 Proof. reflexivity. Qed.
 
 (* server/core/region.go: (RegionsInfo).Len, body *)
 Lemma src_ri_Len_ok : src_ri_Len =
-  "{ return r.regions.Len() }".
+  "{ return v0.regions.Len() }".
 Proof. reflexivity. Qed.
 
 (* server/core/region.go: (RegionsInfo).TreeLen, body *)
 Lemma src_ri_TreeLen_ok : src_ri_TreeLen =
-  "{ return r.tree.length() }".
+  "{ return v0.tree.length() }".
 Proof. reflexivity. Qed.
 
 (* server/core/region_tree.go: (regionItem).Less, body *)
 Lemma src_item_Less_ok : src_item_Less =
-  "{ left := r.region.GetStartKey() right := other.(*regionItem).region.GetStartKey() return bytes.Compare(left, right) < 0 }".
+  "{ v2 := v0.region.GetStartKey() v3 := v1.(*regionItem).region.GetStartKey() return bytes.Compare(v2, v3) < 0 }".
 Proof. reflexivity. Qed.
 
 (* server/core/region_tree.go: (regionItem).Contains, body *)
 Lemma src_item_Contains_ok : src_item_Contains =
-  "{ start, end := r.region.GetStartKey(), r.region.GetEndKey() return bytes.Compare(key, start) >= 0 && (len(end) == 0 || bytes.Compare(key, end) < 0) }".
+  "{ v2, v3 := v0.region.GetStartKey(), v0.region.GetEndKey() return bytes.Compare(v1, v2) >= 0 && (len(v3) == 0 || bytes.Compare(v1, v3) < 0) }".
 Proof. reflexivity. Qed.
 
 (* server/core/region.go: ().isInvolved, body *)
 Lemma src_isInvolved_ok : src_isInvolved =
-  "{ return bytes.Compare(region.GetStartKey(), startKey) >= 0 && (len(endKey) == 0 || (len(region.GetEndKey()) > 0 && bytes.Compare(region.GetEndKey(), endKey) <= 0)) }".
+  "{ return bytes.Compare(v0.GetStartKey(), v1) >= 0 && (len(v2) == 0 || (len(v0.GetEndKey()) > 0 && bytes.Compare(v0.GetEndKey(), v2) <= 0)) }".
 Proof. reflexivity. Qed.
 
 (* server/core/region.go: (RegionsInfo).shouldRemoveFromSubTree, body *)
 Lemma src_shouldRemoveFromSubTree_ok : src_shouldRemoveFromSubTree =
-  "{ return origin.leader.GetId() != region.leader.GetId() || !SortedPeersEqual(origin.GetVoters(), region.GetVoters()) || !SortedPeersEqual(origin.GetLearners(), region.GetLearners()) || !SortedPeersEqual(origin.GetPendingPeers(), region.GetPendingPeers()) }".
+  "{ return v2.leader.GetId() != v1.leader.GetId() || !SortedPeersEqual(v2.GetVoters(), v1.GetVoters()) || !SortedPeersEqual(v2.GetLearners(), v1.GetLearners()) || !SortedPeersEqual(v2.GetPendingPeers(), v1.GetPendingPeers()) }".
 Proof. reflexivity. Qed.
 
 (* server/core/region.go: ().SortedPeersEqual, body *)
 Lemma src_SortedPeersEqual_ok : src_SortedPeersEqual =
-  "{ if len(peersA) != len(peersB) { return false } for i, peerA := range peersA { peerB := peersB[i] if peerA.GetStoreId() != peerB.GetStoreId() || peerA.GetId() != peerB.GetId() { return false } } return true }".
+  "{ if len(v0) != len(v1) { return false } for v2, v3 := range v0 { v4 := v1[v2] if v3.GetStoreId() != v4.GetStoreId() || v3.GetId() != v4.GetId() { return false } } return true }".
 Proof. reflexivity. Qed.
 
 (* server/core/region.go: (peerSlice).Less, body *)
 Lemma src_peerSlice_Less_ok : src_peerSlice_Less =
-  "{ return s[i].GetId() < s[j].GetId() }".
+  "{ return v0[v1].GetId() < v0[v2].GetId() }".
 Proof. reflexivity. Qed.
 
 (* server/core/region.go: ().classifyVoterAndLearner, body *)
 Lemma src_classifyVoterAndLearner_ok : src_classifyVoterAndLearner =
-  "{ learners := make([]*metapb.Peer, 0, 1) voters := make([]*metapb.Peer, 0, len(region.meta.Peers)) for _, p := range region.meta.Peers { if IsLearner(p) { learners = append(learners, p) } else { voters = append(voters, p) } } sort.Sort(peerSlice(learners)) sort.Sort(peerSlice(voters)) region.learners = learners region.voters = voters }".
+  "{ v1 := make([]*metapb.Peer, 0, 1) v2 := make([]*metapb.Peer, 0, len(v0.meta.Peers)) for _, v3 := range v0.meta.Peers { if IsLearner(v3) { v1 = append(v1, v3) } else { v2 = append(v2, v3) } } sort.Sort(peerSlice(v1)) sort.Sort(peerSlice(v2)) v0.learners = v1 v0.voters = v2 }".
 Proof. reflexivity. Qed.
 
 (* server/core/region.go: (regionMap).AddNew, body *)
 Lemma src_regionMap_AddNew_ok : src_regionMap_AddNew =
-  "{ item := &regionItem{region: region} rm[region.GetID()] = item return item }".
+  "{ v2 := &regionItem{region: v1} v0[v1.GetID()] = v2 return v2 }".
 Proof. reflexivity. Qed.
 
 (* server/core/region.go: (regionMap).Get, body *)
 Lemma src_regionMap_Get_ok : src_regionMap_Get =
-  "{ return rm[id] }".
+  "{ return v0[v1] }".
 Proof. reflexivity. Qed.
 
 (* server/core/region.go: (regionMap).Delete, body *)
 Lemma src_regionMap_Delete_ok : src_regionMap_Delete =
-  "{ delete(rm, id) }".
+  "{ delete(v0, v1) }".
 Proof. reflexivity. Qed.
 
 (* pkg/btree/btree.go: (items).find, body *)
 Lemma src_bt_items_find_ok : src_bt_items_find =
-  "{ i := sort.Search(len(s), func(i int) bool { return item.Less(s[i]) }) if i > 0 && !s[i-1].Less(item) { return i - 1, true } return i, false }".
+  "{ v4 := sort.Search(len(v0), func(v5 int) bool { return v1.Less(v0[v5]) }) if v4 > 0 && !v0[v4-1].Less(v1) { return v4 - 1, true } return v4, false }".
 Proof. reflexivity. Qed.
 
 (* pkg/btree/btree.go: (indices).addAt, body *)
 Lemma src_bt_indices_addAt_ok : src_bt_indices_addAt =
-  "{ for i := index; i < len(*s); i++ { (*s)[i] += delta } }".
+  "{ for v3 := v1; v3 < len(*v0); v3++ { (*v0)[v3] += v2 } }".
 Proof. reflexivity. Qed.
 
 (* pkg/btree/btree.go: (indices).insertAt, body *)
 Lemma src_bt_indices_insertAt_ok : src_bt_indices_insertAt =
-  "{ *s = append(*s, -1) for i := len(*s) - 1; i >= index && i > 0; i-- { (*s)[i] = (*s)[i-1] + sz + 1 } if index == 0 { (*s)[0] = sz } }".
+  "{ *v0 = append(*v0, -1) for v3 := len(*v0) - 1; v3 >= v1 && v3 > 0; v3-- { (*v0)[v3] = (*v0)[v3-1] + v2 + 1 } if v1 == 0 { (*v0)[0] = v2 } }".
 Proof. reflexivity. Qed.
 
 (* pkg/btree/btree.go: (indices).push, body *)
 Lemma src_bt_indices_push_ok : src_bt_indices_push =
-  "{ if len(*s) == 0 { *s = append(*s, sz) } else { *s = append(*s, (*s)[len(*s)-1]+1+sz) } }".
+  "{ if len(*v0) == 0 { *v0 = append(*v0, v1) } else { *v0 = append(*v0, (*v0)[len(*v0)-1]+1+v1) } }".
 Proof. reflexivity. Qed.
 
 (* pkg/btree/btree.go: (indices).split, body *)
 Lemma src_bt_indices_split_ok : src_bt_indices_split =
-  "{ s.insertAt(index+1, -1) (*s)[index] -= 1 + nextSize }".
+  "{ v0.insertAt(v1+1, -1) (*v0)[v1] -= 1 + v2 }".
 Proof. reflexivity. Qed.
 
 (* pkg/btree/btree.go: (indices).merge, body *)
 Lemma src_bt_indices_merge_ok : src_bt_indices_merge =
-  "{ for i := index; i < len(*s)-1; i++ { (*s)[i] = (*s)[i+1] } *s = (*s)[:len(*s)-1] }".
+  "{ for v2 := v1; v2 < len(*v0)-1; v2++ { (*v0)[v2] = (*v0)[v2+1] } *v0 = (*v0)[:len(*v0)-1] }".
 Proof. reflexivity. Qed.
 
 (* pkg/btree/btree.go: (indices).removeAt, body *)
 Lemma src_bt_indices_removeAt_ok : src_bt_indices_removeAt =
-  "{ sz := (*s)[index] if index > 0 { sz = sz - (*s)[index-1] - 1 } for i := index + 1; i < len(*s); i++ { (*s)[i-1] = (*s)[i] - sz - 1 } *s = (*s)[:len(*s)-1] return sz }".
+  "{ v2 := (*v0)[v1] if v1 > 0 { v2 = v2 - (*v0)[v1-1] - 1 } for v3 := v1 + 1; v3 < len(*v0); v3++ { (*v0)[v3-1] = (*v0)[v3] - v2 - 1 } *v0 = (*v0)[:len(*v0)-1] return v2 }".
 Proof. reflexivity. Qed.
 
 (* pkg/btree/btree.go: (indices).pop, body *)
 Lemma src_bt_indices_pop_ok : src_bt_indices_pop =
-  "{ l := len(*s) out := (*s)[l-1] if l != 1 { out -= (*s)[l-2] + 1 } *s = (*s)[:len(*s)-1] return out }".
+  "{ v1 := len(*v0) v2 := (*v0)[v1-1] if v1 != 1 { v2 -= (*v0)[v1-2] + 1 } *v0 = (*v0)[:len(*v0)-1] return v2 }".
 Proof. reflexivity. Qed.
 
 (* pkg/btree/btree.go: (indices).find, body *)
 Lemma src_bt_indices_find_ok : src_bt_indices_find =
-  "{ i := sort.SearchInts(s, k) return i, s[i] == k }".
+  "{ v4 := sort.SearchInts(v0, v1) return v4, v0[v4] == v1 }".
 Proof. reflexivity. Qed.
 
 (* pkg/btree/btree.go: (node).length, body *)
 Lemma src_bt_node_length_ok : src_bt_node_length =
-  "{ if len(n.indices) <= 0 { return len(n.items) } return n.indices[len(n.indices)-1] }".
+  "{ if len(v0.indices) <= 0 { return len(v0.items) } return v0.indices[len(v0.indices)-1] }".
 Proof. reflexivity. Qed.
 
 (* pkg/btree/btree.go: (node).initSize, body *)
 Lemma src_bt_node_initSize_ok : src_bt_node_initSize =
-  "{ l := len(n.children) if l <= 0 { n.indices.truncate(0) return } else if l <= cap(n.indices) { n.indices = n.indices[:l] } else { n.indices = make([]int, l) } n.indices[0] = n.children[0].length() for i := 1; i < l; i++ { n.indices[i] = n.indices[i-1] + 1 + n.children[i].length() } }".
+  "{ v1 := len(v0.children) if v1 <= 0 { v0.indices.truncate(0) return } else if v1 <= cap(v0.indices) { v0.indices = v0.indices[:v1] } else { v0.indices = make([]int, v1) } v0.indices[0] = v0.children[0].length() for v2 := 1; v2 < v1; v2++ { v0.indices[v2] = v0.indices[v2-1] + 1 + v0.children[v2].length() } }".
 Proof. reflexivity. Qed.
 
 (* pkg/btree/btree.go: (node).split, body *)
 Lemma src_bt_node_split_ok : src_bt_node_split =
-  "{ item := n.items[i] next := n.cow.newNode() next.items = append(next.items, n.items[i+1:]...) n.items.truncate(i) if len(n.children) > 0 { next.children = append(next.children, n.children[i+1:]...) next.initSize() n.children.truncate(i + 1) n.indices.truncate(i + 1) } return item, next }".
+  "{ v2 := v0.items[v1] v3 := v0.cow.newNode() v3.items = append(v3.items, v0.items[v1+1:]...) v0.items.truncate(v1) if len(v0.children) > 0 { v3.children = append(v3.children, v0.children[v1+1:]...) v3.initSize() v0.children.truncate(v1 + 1) v0.indices.truncate(v1 + 1) } return v2, v3 }".
 Proof. reflexivity. Qed.
 
 (* pkg/btree/btree.go: (node).maybeSplitChild, body *)
 Lemma src_bt_node_maybeSplitChild_ok : src_bt_node_maybeSplitChild =
-  "{ if len(n.children[i].items) < maxItems { return false } first := n.mutableChild(i) item, second := first.split(maxItems / 2) n.items.insertAt(i, item) n.children.insertAt(i+1, second) n.indices.split(i, second.length()) return true }".
+  "{ if len(v0.children[v1].items) < v2 { return false } v3 := v0.mutableChild(v1) v4, v5 := v3.split(v2 / 2) v0.items.insertAt(v1, v4) v0.children.insertAt(v1+1, v5) v0.indices.split(v1, v5.length()) return true }".
 Proof. reflexivity. Qed.
 
 (* pkg/btree/btree.go: (node).insert, body *)
 Lemma src_bt_node_insert_ok : src_bt_node_insert =
-  "{ i, found := n.items.find(item) if found { out := n.items[i] n.items[i] = item return out } if len(n.children) == 0 { n.items.insertAt(i, item) return nil } if n.maybeSplitChild(i, maxItems) { inTree := n.items[i] switch { case item.Less(inTree): case inTree.Less(item): i++ default: out := n.items[i] n.items[i] = item return out } } out := n.mutableChild(i).insert(item, maxItems) if out == nil { n.indices.addAt(i, 1) } return out }".
+  "{ v3, v4 := v0.items.find(v1) if v4 { v5 := v0.items[v3] v0.items[v3] = v1 return v5 } if len(v0.children) == 0 { v0.items.insertAt(v3, v1) return nil } if v0.maybeSplitChild(v3, v2) { v6 := v0.items[v3] switch { case v1.Less(v6): case v6.Less(v1): v3++ default: v7 := v0.items[v3] v0.items[v3] = v1 return v7 } } v8 := v0.mutableChild(v3).insert(v1, v2) if v8 == nil { v0.indices.addAt(v3, 1) } return v8 }".
 Proof. reflexivity. Qed.
 
 (* pkg/btree/btree.go: (node).getAt, body *)
 Lemma src_bt_node_getAt_ok : src_bt_node_getAt =
-  "{ if k >= n.length() || k < 0 { return nil } if len(n.children) == 0 { return n.items[k] } i, found := n.indices.find(k) if found { return n.items[i] } if i == 0 { return n.children[0].getAt(k) } return n.children[i].getAt(k - n.indices[i-1] - 1) }".
+  "{ if v1 >= v0.length() || v1 < 0 { return nil } if len(v0.children) == 0 { return v0.items[v1] } v2, v3 := v0.indices.find(v1) if v3 { return v0.items[v2] } if v2 == 0 { return v0.children[0].getAt(v1) } return v0.children[v2].getAt(v1 - v0.indices[v2-1] - 1) }".
 Proof. reflexivity. Qed.
 
 (* pkg/btree/btree.go: (node).getWithIndex, body *)
 Lemma src_bt_node_getWithIndex_ok : src_bt_node_getWithIndex =
-  "{ i, found := n.items.find(key) if found { rk := i if len(n.indices) > 0 { rk = n.indices[i] } return n.items[i], rk } else if len(n.children) > 0 { out, rk := n.children[i].getWithIndex(key) if i > 0 { rk += n.indices[i-1] + 1 } return out, rk } return nil, i }".
+  "{ v2, v3 := v0.items.find(v1) if v3 { v4 := v2 if len(v0.indices) > 0 { v4 = v0.indices[v2] } return v0.items[v2], v4 } else if len(v0.children) > 0 { v5, v6 := v0.children[v2].getWithIndex(v1) if v2 > 0 { v6 += v0.indices[v2-1] + 1 } return v5, v6 } return nil, v2 }".
 Proof. reflexivity. Qed.
 
 (* pkg/btree/btree.go: (node).remove, body *)
 Lemma src_bt_node_remove_ok : src_bt_node_remove =
-  "{ var i int var found bool switch typ { case removeMax: if len(n.children) == 0 { return n.items.pop() } i = len(n.items) case removeMin: if len(n.children) == 0 { return n.items.removeAt(0) } i = 0 case removeItem: i, found = n.items.find(item) if len(n.children) == 0 { if found { return n.items.removeAt(i) } return nil } default: panic(""invalid type"") } if len(n.children[i].items) <= minItems { return n.growChildAndRemove(i, item, minItems, typ) } child := n.mutableChild(i) if found { out = n.items[i] n.items[i] = child.remove(nil, minItems, removeMax) } else { out = child.remove(item, minItems, typ) } if out != nil { n.indices.addAt(i, -1) } return }".
+  "{ var v5 int var v6 bool switch v3 { case removeMax: if len(v0.children) == 0 { return v0.items.pop() } v5 = len(v0.items) case removeMin: if len(v0.children) == 0 { return v0.items.removeAt(0) } v5 = 0 case removeItem: v5, v6 = v0.items.find(v1) if len(v0.children) == 0 { if v6 { return v0.items.removeAt(v5) } return nil } default: panic(""invalid type"") } if len(v0.children[v5].items) <= v2 { return v0.growChildAndRemove(v5, v1, v2, v3) } v7 := v0.mutableChild(v5) if v6 { v4 = v0.items[v5] v0.items[v5] = v7.remove(nil, v2, removeMax) } else { v4 = v7.remove(v1, v2, v3) } if v4 != nil { v0.indices.addAt(v5, -1) } return }".
 Proof. reflexivity. Qed.
 
 (* pkg/btree/btree.go: (node).growChildAndRemove, body *)
 Lemma src_bt_node_growChildAndRemove_ok : src_bt_node_growChildAndRemove =
-  "{ if i > 0 && len(n.children[i-1].items) > minItems { child := n.mutableChild(i) stealFrom := n.mutableChild(i - 1) stolenItem := stealFrom.items.pop() child.items.insertAt(0, n.items[i-1]) n.items[i-1] = stolenItem n.indices[i-1] -= 1 if len(stealFrom.children) > 0 { child.children.insertAt(0, stealFrom.children.pop()) stealSize := stealFrom.indices.pop() n.indices[i-1] -= stealSize child.indices.insertAt(0, stealSize) } } else if i < len(n.items) && len(n.children[i+1].items) > minItems { child := n.mutableChild(i) stealFrom := n.mutableChild(i + 1) stolenItem := stealFrom.items.removeAt(0) child.items = append(child.items, n.items[i]) n.items[i] = stolenItem n.indices[i] += 1 if len(stealFrom.children) > 0 { child.children = append(child.children, stealFrom.children.removeAt(0)) stealSize := stealFrom.indices.removeAt(0) n.indices[i] += stealSize child.indices.push(stealSize) } } else { if i >= len(n.items) { i-- } child := n.mutableChild(i) mergeItem := n.items.removeAt(i) mergeChild := n.children.removeAt(i + 1) child.items = append(child.items, mergeItem) child.items = append(child.items, mergeChild.items...) child.children = append(child.children, mergeChild.children...) for _, nn := range mergeChild.children { child.indices.push(nn.length()) } n.indices.merge(i) n.cow.freeNode(mergeChild) } return n.remove(item, minItems, typ) }".
+  "{ if v1 > 0 && len(v0.children[v1-1].items) > v3 { v5 := v0.mutableChild(v1) v6 := v0.mutableChild(v1 - 1) v7 := v6.items.pop() v5.items.insertAt(0, v0.items[v1-1]) v0.items[v1-1] = v7 v0.indices[v1-1] -= 1 if len(v6.children) > 0 { v5.children.insertAt(0, v6.children.pop()) v8 := v6.indices.pop() v0.indices[v1-1] -= v8 v5.indices.insertAt(0, v8) } } else if v1 < len(v0.items) && len(v0.children[v1+1].items) > v3 { v9 := v0.mutableChild(v1) v10 := v0.mutableChild(v1 + 1) v11 := v10.items.removeAt(0) v9.items = append(v9.items, v0.items[v1]) v0.items[v1] = v11 v0.indices[v1] += 1 if len(v10.children) > 0 { v9.children = append(v9.children, v10.children.removeAt(0)) v12 := v10.indices.removeAt(0) v0.indices[v1] += v12 v9.indices.push(v12) } } else { if v1 >= len(v0.items) { v1-- } v13 := v0.mutableChild(v1) v14 := v0.items.removeAt(v1) v15 := v0.children.removeAt(v1 + 1) v13.items = append(v13.items, v14) v13.items = append(v13.items, v15.items...) v13.children = append(v13.children, v15.children...) for _, v16 := range v15.children { v13.indices.push(v16.length()) } v0.indices.merge(v1) v0.cow.freeNode(v15) } return v0.remove(v2, v3, v4) }".
 Proof. reflexivity. Qed.
 
 (* pkg/btree/btree.go: (node).iterate, body *)
 Lemma src_bt_node_iterate_ok : src_bt_node_iterate =
-  "{ var ok, found bool var index int switch dir { case ascend: if start != nil { index, _ = n.items.find(start) } for i := index; i < len(n.items); i++ { if len(n.children) > 0 { if hit, ok = n.children[i].iterate(dir, start, stop, includeStart, hit, iter); !ok { return hit, false } } if !includeStart && !hit && start != nil && !start.Less(n.items[i]) { hit = true continue } hit = true if stop != nil && !n.items[i].Less(stop) { return hit, false } if !iter(n.items[i]) { return hit, false } } if len(n.children) > 0 { if hit, ok = n.children[len(n.children)-1].iterate(dir, start, stop, includeStart, hit, iter); !ok { return hit, false } } case descend: if start != nil { index, found = n.items.find(start) if !found { index = index - 1 } } else { index = len(n.items) - 1 } for i := index; i >= 0; i-- { if start != nil && !n.items[i].Less(start) { if !includeStart || hit || start.Less(n.items[i]) { continue } } if len(n.children) > 0 { if hit, ok = n.children[i+1].iterate(dir, start, stop, includeStart, hit, iter); !ok { return hit, false } } if stop != nil && !stop.Less(n.items[i]) { return hit, false } hit = true if !iter(n.items[i]) { return hit, false } } if len(n.children) > 0 { if hit, ok = n.children[0].iterate(dir, start, stop, includeStart, hit, iter); !ok { return hit, false } } } return hit, true }".
+  "{ var v7, v8 bool var v9 int switch v1 { case ascend: if v2 != nil { v9, _ = v0.items.find(v2) } for v10 := v9; v10 < len(v0.items); v10++ { if len(v0.children) > 0 { if v5, v7 = v0.children[v10].iterate(v1, v2, v3, v4, v5, v6); !v7 { return v5, false } } if !v4 && !v5 && v2 != nil && !v2.Less(v0.items[v10]) { v5 = true continue } v5 = true if v3 != nil && !v0.items[v10].Less(v3) { return v5, false } if !v6(v0.items[v10]) { return v5, false } } if len(v0.children) > 0 { if v5, v7 = v0.children[len(v0.children)-1].iterate(v1, v2, v3, v4, v5, v6); !v7 { return v5, false } } case descend: if v2 != nil { v9, v8 = v0.items.find(v2) if !v8 { v9 = v9 - 1 } } else { v9 = len(v0.items) - 1 } for v11 := v9; v11 >= 0; v11-- { if v2 != nil && !v0.items[v11].Less(v2) { if !v4 || v5 || v2.Less(v0.items[v11]) { continue } } if len(v0.children) > 0 { if v5, v7 = v0.children[v11+1].iterate(v1, v2, v3, v4, v5, v6); !v7 { return v5, false } } if v3 != nil && !v3.Less(v0.items[v11]) { return v5, false } v5 = true if !v6(v0.items[v11]) { return v5, false } } if len(v0.children) > 0 { if v5, v7 = v0.children[0].iterate(v1, v2, v3, v4, v5, v6); !v7 { return v5, false } } } return v5, true }".
 Proof. reflexivity. Qed.
 
 (* pkg/btree/btree.go: (BTree).ReplaceOrInsert, body *)
 Lemma src_bt_ReplaceOrInsert_ok : src_bt_ReplaceOrInsert =
-  "{ if item == nil { panic(""nil item being added to BTree"") } if t.root == nil { t.root = t.cow.newNode() t.root.items = append(t.root.items, item) t.length++ return nil } t.root = t.root.mutableFor(t.cow) if len(t.root.items) >= t.maxItems() { item2, second := t.root.split(t.maxItems() / 2) oldroot := t.root t.root = t.cow.newNode() t.root.items = append(t.root.items, item2) t.root.children = append(t.root.children, oldroot, second) t.root.initSize() } out := t.root.insert(item, t.maxItems()) if out == nil { t.length++ } return out }".
+  "{ if v1 == nil { panic(""nil item being added to BTree"") } if v0.root == nil { v0.root = v0.cow.newNode() v0.root.items = append(v0.root.items, v1) v0.length++ return nil } v0.root = v0.root.mutableFor(v0.cow) if len(v0.root.items) >= v0.maxItems() { v2, v3 := v0.root.split(v0.maxItems() / 2) v4 := v0.root v0.root = v0.cow.newNode() v0.root.items = append(v0.root.items, v2) v0.root.children = append(v0.root.children, v4, v3) v0.root.initSize() } v5 := v0.root.insert(v1, v0.maxItems()) if v5 == nil { v0.length++ } return v5 }".
 Proof. reflexivity. Qed.
 
 (* pkg/btree/btree.go: (BTree).deleteItem, body *)
 Lemma src_bt_deleteItem_ok : src_bt_deleteItem =
-  "{ if t.root == nil || len(t.root.items) == 0 { return nil } t.root = t.root.mutableFor(t.cow) out := t.root.remove(item, t.minItems(), typ) if len(t.root.items) == 0 && len(t.root.children) > 0 { oldroot := t.root t.root = t.root.children[0] t.cow.freeNode(oldroot) } if out != nil { t.length-- } return out }".
+  "{ if v0.root == nil || len(v0.root.items) == 0 { return nil } v0.root = v0.root.mutableFor(v0.cow) v3 := v0.root.remove(v1, v0.minItems(), v2) if len(v0.root.items) == 0 && len(v0.root.children) > 0 { v4 := v0.root v0.root = v0.root.children[0] v0.cow.freeNode(v4) } if v3 != nil { v0.length-- } return v3 }".
 Proof. reflexivity. Qed.
 
 (* pkg/btree/btree.go: (BTree).maxItems, body *)
 Lemma src_bt_maxItems_ok : src_bt_maxItems =
-  "{ return t.degree*2 - 1 }".
+  "{ return v0.degree*2 - 1 }".
 Proof. reflexivity. Qed.
 
 (* pkg/btree/btree.go: (BTree).minItems, body *)
 Lemma src_bt_minItems_ok : src_bt_minItems =
-  "{ return t.degree - 1 }".
+  "{ return v0.degree - 1 }".
 Proof. reflexivity. Qed.
 
 (* pkg/btree/btree.go: (BTree).GetWithIndex, body *)
 Lemma src_bt_GetWithIndex_ok : src_bt_GetWithIndex =
-  "{ if t.root == nil { return nil, 0 } return t.root.getWithIndex(key) }".
+  "{ if v0.root == nil { return nil, 0 } return v0.root.getWithIndex(v1) }".
 Proof. reflexivity. Qed.
 
 (* pkg/btree/btree.go: (BTree).GetAt, body *)
 Lemma src_bt_GetAt_ok : src_bt_GetAt =
-  "{ if t.root == nil { return nil } return t.root.getAt(k) }".
+  "{ if v0.root == nil { return nil } return v0.root.getAt(v1) }".
 Proof. reflexivity. Qed.
 
 (* pkg/btree/btree.go: (BTree).AscendGreaterOrEqual, body *)
 Lemma src_bt_AscendGreaterOrEqual_ok : src_bt_AscendGreaterOrEqual =
-  "{ if t.root == nil { return } t.root.iterate(ascend, pivot, nil, true, false, iterator) }".
+  "{ if v0.root == nil { return } v0.root.iterate(ascend, v1, nil, true, false, v2) }".
 Proof. reflexivity. Qed.
 
 (* pkg/btree/btree.go: (BTree).DescendLessOrEqual, body *)
 Lemma src_bt_DescendLessOrEqual_ok : src_bt_DescendLessOrEqual =
-  "{ if t.root == nil { return } t.root.iterate(descend, pivot, nil, true, false, iterator) }".
+  "{ if v0.root == nil { return } v0.root.iterate(descend, v1, nil, true, false, v2) }".
 Proof. reflexivity. Qed.
 
 (* ---- the rest of pkg/btree that model/C07_BTree.v transcribes (the Gallina B-tree of the refinement proof) ---- *)
 (* pkg/btree/btree.go: (items).insertAt, body *)
 Lemma src_bt_items_insertAt_ok : Gen_C07.src_bt_items_insertAt =
-  "{ *s = append(*s, nil) if index < len(*s) { copy((*s)[index+1:], (*s)[index:]) } (*s)[index] = item }".
+  "{ *v0 = append(*v0, nil) if v1 < len(*v0) { copy((*v0)[v1+1:], (*v0)[v1:]) } (*v0)[v1] = v2 }".
 Proof. reflexivity. Qed.
 
 (* pkg/btree/btree.go: (items).removeAt, body *)
 Lemma src_bt_items_removeAt_ok : Gen_C07.src_bt_items_removeAt =
-  "{ item := (*s)[index] copy((*s)[index:], (*s)[index+1:]) (*s)[len(*s)-1] = nil *s = (*s)[:len(*s)-1] return item }".
+  "{ v2 := (*v0)[v1] copy((*v0)[v1:], (*v0)[v1+1:]) (*v0)[len(*v0)-1] = nil *v0 = (*v0)[:len(*v0)-1] return v2 }".
 Proof. reflexivity. Qed.
 
 (* pkg/btree/btree.go: (items).pop, body *)
 Lemma src_bt_items_pop_ok : Gen_C07.src_bt_items_pop =
-  "{ index := len(*s) - 1 out = (*s)[index] (*s)[index] = nil *s = (*s)[:index] return }".
+  "{ v2 := len(*v0) - 1 v1 = (*v0)[v2] (*v0)[v2] = nil *v0 = (*v0)[:v2] return }".
 Proof. reflexivity. Qed.
 
 (* pkg/btree/btree.go: (items).truncate, body *)
 Lemma src_bt_items_truncate_ok : Gen_C07.src_bt_items_truncate =
-  "{ var toClear items *s, toClear = (*s)[:index], (*s)[index:] for len(toClear) > 0 { toClear = toClear[copy(toClear, nilItems):] } }".
+  "{ var v2 items *v0, v2 = (*v0)[:v1], (*v0)[v1:] for len(v2) > 0 { v2 = v2[copy(v2, nilItems):] } }".
 Proof. reflexivity. Qed.
 
 (* pkg/btree/btree.go: (children).insertAt, body *)
 Lemma src_bt_children_insertAt_ok : Gen_C07.src_bt_children_insertAt =
-  "{ *s = append(*s, nil) if index < len(*s) { copy((*s)[index+1:], (*s)[index:]) } (*s)[index] = n }".
+  "{ *v0 = append(*v0, nil) if v1 < len(*v0) { copy((*v0)[v1+1:], (*v0)[v1:]) } (*v0)[v1] = v2 }".
 Proof. reflexivity. Qed.
 
 (* pkg/btree/btree.go: (children).removeAt, body *)
 Lemma src_bt_children_removeAt_ok : Gen_C07.src_bt_children_removeAt =
-  "{ n := (*s)[index] copy((*s)[index:], (*s)[index+1:]) (*s)[len(*s)-1] = nil *s = (*s)[:len(*s)-1] return n }".
+  "{ v2 := (*v0)[v1] copy((*v0)[v1:], (*v0)[v1+1:]) (*v0)[len(*v0)-1] = nil *v0 = (*v0)[:len(*v0)-1] return v2 }".
 Proof. reflexivity. Qed.
 
 (* pkg/btree/btree.go: (children).pop, body *)
 Lemma src_bt_children_pop_ok : Gen_C07.src_bt_children_pop =
-  "{ index := len(*s) - 1 out = (*s)[index] (*s)[index] = nil *s = (*s)[:index] return }".
+  "{ v2 := len(*v0) - 1 v1 = (*v0)[v2] (*v0)[v2] = nil *v0 = (*v0)[:v2] return }".
 Proof. reflexivity. Qed.
 
 (* pkg/btree/btree.go: (children).truncate, body *)
 Lemma src_bt_children_truncate_ok : Gen_C07.src_bt_children_truncate =
-  "{ var toClear children *s, toClear = (*s)[:index], (*s)[index:] for len(toClear) > 0 { toClear = toClear[copy(toClear, nilChildren):] } }".
+  "{ var v2 children *v0, v2 = (*v0)[:v1], (*v0)[v1:] for len(v2) > 0 { v2 = v2[copy(v2, nilChildren):] } }".
 Proof. reflexivity. Qed.
 
 (* pkg/btree/btree.go: (indices).truncate, body *)
 Lemma src_bt_indices_truncate_ok : Gen_C07.src_bt_indices_truncate =
-  "{ *s = (*s)[:index] }".
+  "{ *v0 = (*v0)[:v1] }".
 Proof. reflexivity. Qed.
 
 (* pkg/btree/btree.go: (node).mutableFor, body *)
 Lemma src_bt_node_mutableFor_ok : Gen_C07.src_bt_node_mutableFor =
-  "{ if n.cow == cow { return n } out := cow.newNode() if cap(out.items) >= len(n.items) { out.items = out.items[:len(n.items)] } else { out.items = make(items, len(n.items), cap(n.items)) } copy(out.items, n.items) if cap(out.children) >= len(n.children) { out.children = out.children[:len(n.children)] } else { out.children = make(children, len(n.children), cap(n.children)) } copy(out.children, n.children) if cap(out.indices) >= len(n.indices) { out.indices = out.indices[:len(n.indices)] } else { out.indices = make(indices, len(n.indices), cap(n.indices)) } copy(out.indices, n.indices) return out }".
+  "{ if v0.cow == v1 { return v0 } v2 := v1.newNode() if cap(v2.items) >= len(v0.items) { v2.items = v2.items[:len(v0.items)] } else { v2.items = make(items, len(v0.items), cap(v0.items)) } copy(v2.items, v0.items) if cap(v2.children) >= len(v0.children) { v2.children = v2.children[:len(v0.children)] } else { v2.children = make(children, len(v0.children), cap(v0.children)) } copy(v2.children, v0.children) if cap(v2.indices) >= len(v0.indices) { v2.indices = v2.indices[:len(v0.indices)] } else { v2.indices = make(indices, len(v0.indices), cap(v0.indices)) } copy(v2.indices, v0.indices) return v2 }".
 Proof. reflexivity. Qed.
 
 (* pkg/btree/btree.go: (node).mutableChild, body *)
 Lemma src_bt_node_mutableChild_ok : Gen_C07.src_bt_node_mutableChild =
-  "{ c := n.children[i].mutableFor(n.cow) n.children[i] = c return c }".
+  "{ v2 := v0.children[v1].mutableFor(v0.cow) v0.children[v1] = v2 return v2 }".
 Proof. reflexivity. Qed.
 
 (* pkg/btree/btree.go: (node).get, body *)
 Lemma src_bt_node_get_ok : Gen_C07.src_bt_node_get =
-  "{ i, found := n.items.find(key) if found { return n.items[i] } else if len(n.children) > 0 { return n.children[i].get(key) } return nil }".
+  "{ v2, v3 := v0.items.find(v1) if v3 { return v0.items[v2] } else if len(v0.children) > 0 { return v0.children[v2].get(v1) } return nil }".
 Proof. reflexivity. Qed.
 
 (* pkg/btree/btree.go: ().min, body *)
 Lemma src_bt_min_ok : Gen_C07.src_bt_min =
-  "{ if n == nil { return nil } for len(n.children) > 0 { n = n.children[0] } if len(n.items) == 0 { return nil } return n.items[0] }".
+  "{ if v0 == nil { return nil } for len(v0.children) > 0 { v0 = v0.children[0] } if len(v0.items) == 0 { return nil } return v0.items[0] }".
 Proof. reflexivity. Qed.
 
 (* pkg/btree/btree.go: ().max, body *)
 Lemma src_bt_max_ok : Gen_C07.src_bt_max =
-  "{ if n == nil { return nil } for len(n.children) > 0 { n = n.children[len(n.children)-1] } if len(n.items) == 0 { return nil } return n.items[len(n.items)-1] }".
+  "{ if v0 == nil { return nil } for len(v0.children) > 0 { v0 = v0.children[len(v0.children)-1] } if len(v0.items) == 0 { return nil } return v0.items[len(v0.items)-1] }".
 Proof. reflexivity. Qed.
 
 (* pkg/btree/btree.go: (BTree).Delete, body *)
 Lemma src_bt_Delete_ok : Gen_C07.src_bt_Delete =
-  "{ return t.deleteItem(item, removeItem) }".
+  "{ return v0.deleteItem(v1, removeItem) }".
 Proof. reflexivity. Qed.
 
 (* pkg/btree/btree.go: (BTree).DeleteMin, body *)
 Lemma src_bt_DeleteMin_ok : Gen_C07.src_bt_DeleteMin =
-  "{ return t.deleteItem(nil, removeMin) }".
+  "{ return v0.deleteItem(nil, removeMin) }".
 Proof. reflexivity. Qed.
 
 (* pkg/btree/btree.go: (BTree).DeleteMax, body *)
 Lemma src_bt_DeleteMax_ok : Gen_C07.src_bt_DeleteMax =
-  "{ return t.deleteItem(nil, removeMax) }".
+  "{ return v0.deleteItem(nil, removeMax) }".
 Proof. reflexivity. Qed.
 
 (* pkg/btree/btree.go: (BTree).Get, body *)
 Lemma src_bt_Get_ok : Gen_C07.src_bt_Get =
-  "{ if t.root == nil { return nil } return t.root.get(key) }".
+  "{ if v0.root == nil { return nil } return v0.root.get(v1) }".
 Proof. reflexivity. Qed.
 
 (* pkg/btree/btree.go: (BTree).Min, body *)
 Lemma src_bt_Min_ok : Gen_C07.src_bt_Min =
-  "{ return min(t.root) }".
+  "{ return min(v0.root) }".
 Proof. reflexivity. Qed.
 
 (* pkg/btree/btree.go: (BTree).Max, body *)
 Lemma src_bt_Max_ok : Gen_C07.src_bt_Max =
-  "{ return max(t.root) }".
+  "{ return max(v0.root) }".
 Proof. reflexivity. Qed.
 
 (* pkg/btree/btree.go: (BTree).Len, body *)
 Lemma src_bt_Len_ok : Gen_C07.src_bt_Len =
-  "{ return t.length }".
+  "{ return v0.length }".
 Proof. reflexivity. Qed.
 
 (* pkg/btree/btree.go: (BTree).getRootLength, body *)
 Lemma src_bt_getRootLength_ok : Gen_C07.src_bt_getRootLength =
-  "{ if t.root == nil { return 0 } return t.root.length() }".
+  "{ if v0.root == nil { return 0 } return v0.root.length() }".
 Proof. reflexivity. Qed.
